@@ -475,6 +475,32 @@ tuple_cases!(1, Tup1Join, Tup1TryJoin, Tup1Race, Tup1RaceOk, (0));
 tuple_cases!(2, Tup2Join, Tup2TryJoin, Tup2Race, Tup2RaceOk, (0, 1));
 tuple_cases!(3, Tup3Join, Tup3TryJoin, Tup3Race, Tup3RaceOk, (0, 1, 2));
 
+// `FutureExt::join` / `FutureExt::race` on two futures
+pub struct ExtJoin;
+impl FutCase for ExtJoin {
+    const N: usize = 2;
+    const FAM: Fam = Fam::Join;
+    type F = <(Fut, Fut) as futures_concurrency::future::Join>::Future;
+    fn make() -> Self::F {
+        futures_concurrency::future::FutureExt::join(Fut::new(0), Fut::new(1))
+    }
+    fn norm(res: Poll<(Tok, Tok)>) -> Out {
+        Tup2Join::norm(res)
+    }
+}
+pub struct ExtRace;
+impl FutCase for ExtRace {
+    const N: usize = 2;
+    const FAM: Fam = Fam::Race;
+    type F = <(Fut, Fut) as futures_concurrency::future::Race>::Future;
+    fn make() -> Self::F {
+        futures_concurrency::future::FutureExt::race(Fut::new(0), Fut::new(1))
+    }
+    fn norm(res: Poll<Tok>) -> Out {
+        Tup2Race::norm(res)
+    }
+}
+
 // ------------------------------------------------------------------------------------------
 // cases: Vec
 
@@ -687,9 +713,46 @@ crate::proof!(raceok_tup3_r5, 7, {
     witness(&s);
 });
 
+crate::proof!(join_tup2_r3, 6, {
+    let s = run_fut::<Tup2Join>(3, false);
+    witness(&s);
+});
+crate::proof!(join_arr2_r3, 6, {
+    let s = run_fut::<ArrJoin<2>>(3, false);
+    witness(&s);
+});
+crate::proof!(tryjoin_tup2_r3, 6, {
+    let s = run_fut::<Tup2TryJoin>(3, false);
+    witness(&s);
+});
+crate::proof!(tryjoin_arr2_r3, 6, {
+    let s = run_fut::<ArrTryJoin<2>>(3, false);
+    witness(&s);
+});
+crate::proof!(join_ext2_r4, 6, {
+    let s = run_fut::<ExtJoin>(4, false);
+    witness(&s);
+});
+crate::proof!(race_ext2_r4, 6, {
+    let s = run_fut::<ExtRace>(4, false);
+    witness(&s);
+});
+
 #[cfg(feature = "alloc")]
 mod vec_proofs {
     use super::*;
+    crate::proof!(join_vec2_r3, 6, {
+        let s = run_fut::<VecJoin<2>>(3, false);
+        witness(&s);
+    });
+    crate::proof!(tryjoin_vec2_r3, 6, {
+        let s = run_fut::<VecTryJoin<2>>(3, false);
+        witness(&s);
+    });
+    crate::proof!(raceok_vec2_r3, 6, {
+        let s = run_fut::<VecRaceOk<2>>(3, false);
+        witness(&s);
+    });
     crate::proof!(join_vec2_r4, 6, {
     let s = run_fut::<VecJoin<2>>(4, false);
     witness(&s);
